@@ -477,6 +477,47 @@ func generatedHostile() []seedFile {
 		add("hostile-acroform-"+v.name+".pdf", classicFile(objs, ""))
 	}
 
+	// simple fonts whose /FirstChar, /LastChar and /Widths do not fit
+	// together at the boundaries of the 256-entry code space
+	type wcase struct {
+		first, last int64
+		n, style    int
+		missing     string
+	}
+	wcases := []wcase{
+		{250, 256, 7, 0, ""}, {1, 256, 256, 0, ""}, {255, 256, 2, 0, ""}, {0, 256, 257, 0, ""}, {0, 999, 1000, 0, ""},
+		{256, 256, 1, 0, ""}, {-1, 1, 3, 0, ""}, {1 << 31, 1 << 31, 1, 0, ""}, {10, 9, 0, 0, ""}, {200, 65535, 255, 0, ""},
+		{65, 60, 7, 0, ""}, {250, 255, 7, 1, "1e38"}, {250, 255, 7, 2, "-1"}, {0, 255, 256, 1, "2147483648"}, {128, 255, 256, 2, "0"},
+	}
+	for _, ft := range []string{"Type1", "TrueType", "Type3", "MMType1"} {
+		objs := map[int]string{
+			1: "<< /Type /Catalog /Pages 2 0 R >>",
+			2: "<< /Type /Pages /Count 1 /Kids [ 3 0 R ] >>",
+			4: contentObj, 5: fontObj, 8: "611", 9: streamObj("", []byte("500 0 d0 0 0 500 500 re f")),
+		}
+		fontRes := "/F1 5 0 R "
+		for i, wc := range wcases {
+			num := 20 + 2*i
+			fontRes += fmt.Sprintf("/W%02d %d 0 R ", i, num)
+			mw := ""
+			if wc.missing != "" {
+				mw = " /MissingWidth " + wc.missing
+			}
+			objs[num+1] = "<< /Type /FontDescriptor /FontName /Hostile /Flags 32 /FontBBox [0 0 1000 1000] /ItalicAngle 0 /Ascent 800 /Descent -200 /CapHeight 700 /StemV 80" + mw + " >>"
+			common := fmt.Sprintf("/FirstChar %d /LastChar %d /Widths %s", wc.first, wc.last, widthsArray(wc.n, wc.style, 8))
+			switch ft {
+			case "Type3":
+				objs[num] = "<< /Type /Font /Subtype /Type3 /FontBBox [ 0 0 1000 1000 ] /FontMatrix [ 0.001 0 0 0.001 0 0 ] /CharProcs << /a 9 0 R >> /Encoding << /Type /Encoding /Differences [ 97 /a ] >> " + common + " >>"
+			case "TrueType":
+				objs[num] = fmt.Sprintf("<< /Type /Font /Subtype /TrueType /BaseFont /Hostile /Encoding /WinAnsiEncoding /FontDescriptor %d 0 R %s >>", num+1, common)
+			default:
+				objs[num] = fmt.Sprintf("<< /Type /Font /Subtype /%s /BaseFont /Helvetica /FontDescriptor %d 0 R %s >>", ft, num+1, common)
+			}
+		}
+		objs[3] = "<< /Type /Page /Parent 2 0 R /MediaBox [0 0 200 200] /Contents 4 0 R /Resources << /Font << " + fontRes + ">> >> >>"
+		add("hostile-widths-"+ft+".pdf", classicFile(objs, ""))
+	}
+
 	// images: a valid 256x256 JPEG as image XObject, and the same data under
 	// filter chains in which DCTDecode is not the top filter and the filter
 	// above it rejects the decoded samples
